@@ -1,7 +1,7 @@
 (* C01 - Curve evaluation equals the Bernstein definition. Statements only. *)
 From Coq Require Import List Arith ZArith QArith Qcanon Reals.
 From BZ Require Import Base.Ops Base.QcInst Base.RInst Model.Curve Model.CurvePy Gen.PyCurveHelpers
-  Theory.CurveEval Theory.CurveEvalExtra Theory.CurveTables Theory.Rounding Theory.CurveRound Theory.CurveRoundVS.
+  Theory.CurveEval Theory.CurveEvalExtra Theory.CurveTables Theory.Rounding Theory.CurveRound Theory.CurveRoundVS Theory.Binary64.
 Import ListNotations.
 
 (* de Casteljau = Bernstein definition: every degree, any commutative ring *)
@@ -54,6 +54,15 @@ Theorem C01_endpoint_1_exact :
   forall (thr : nat) (v : list T), v <> [] -> eval_bary K thr v (o0 K) (o1 K) = last v (o0 K).
 Proof. exact @eval_bary_at_1. Qed.
 Print Assumptions C01_endpoint_1_exact.
+
+(* ... instantiated: every operation correctly rounded to 53 significant bits, round-to-nearest-even, unbounded exponent
+   (Flocq's FLX format: IEEE-754 binary64 away from overflow and underflow); u = 2^-53 *)
+Theorem C01_rounding_error_bound_binary64 :
+  forall (v : list R) (s : R), (2 <= length v)%nat -> (Z.of_nat (length v) < 2 ^ 53)%Z ->
+  (Rabs (eval_bary (FlOps fl64) vs_max_nodes v (osub (FlOps fl64) 1%R s) s - bernstein ROps v (1 - s) s)
+   <= ((1 + u64) ^ (3 * (length v - 1) + 2) - 1) * bernstein ROps (map Rabs v) (Rabs (1 - s)) (Rabs s))%R.
+Proof. exact evaluate_rounding_binary64. Qed.
+Print Assumptions C01_rounding_error_bound_binary64.
 
 (* convex hull / bounding box, each coordinate, s in [0,1] (over R) *)
 Theorem C01_point_in_bounding_box :
